@@ -8,6 +8,15 @@ from world import World
 def replay(w):
     wd = World(w["world"])
     wd.tables_cache = wd.tables()
+    if w["kind"] == "fn-dep-order":
+        import random
+
+        def key(sc, j):
+            ew = corr_e.EWorld(wd, random.Random(0))
+            b = FnWorld(wd, sc, ew=ew).run()[j]
+            return (b["o"][0], (b.get("t") or [[None]])[0][0] if b["o"][0] == "ran" else None)
+
+        return key(w["scenario"], w["op_index"]) != key(w["scenario2"], w["op_index2"])
     if w["kind"] == "fn-dep":
         import random
 
